@@ -885,5 +885,25 @@ fn main() {
         let inits = vec![St { v: Vector::empty(), m: vec![] }, St { v: Vector::create(vec![r(3), r(1), r(2)]), m: vec![r(3), r(1), r(2)] }];
         explore_replayed(&ctx, "clone-free editing histories on one Vector<Rat>", inits, BfsOpts { max_depth: ctx.pick(6, 7), state_cap: 2_000_000 });
     }
+    // regression inputs of fix (Complex::abs by the scaled form outside the ordinary range): the norms of Vector<Complex<f64>>
+    // go through Complex::abs, which was inf beyond 1.34e154 and 0 below 1.5e-162
+    {
+        ctx.listed_cases(
+            "listed inputs: Vector<Complex<f64>> norms at extreme magnitude",
+            vec![
+                ("extreme-complex norm_inf [2^600 + 0i]".to_string(), Box::new(|| {
+                    let v = Vector::create(vec![Cmplx::new(2f64.powi(600), 0.0)]);
+                    ensure!(v.norm_inf() == 2f64.powi(600), "norm_inf = {:e} but the modulus is 2^600", v.norm_inf());
+                    Ok(())
+                })),
+                ("extreme-complex norm_1 [3*2^-600 + 4*2^-600 i]".to_string(), Box::new(|| {
+                    let s = 2f64.powi(-600);
+                    let v = Vector::create(vec![Cmplx::new(3.0 * s, 4.0 * s)]);
+                    ensure!(v.norm_1().real == 5.0 * s, "norm_1 = {:e} but the modulus is 5 * 2^-600", v.norm_1().real);
+                    Ok(())
+                })),
+            ],
+        );
+    }
     std::process::exit(ctx.finish());
 }
